@@ -31,14 +31,38 @@ func registryUsedBy(p *Program, fn *ssa.Function) *types.Var {
 	}
 	var found *types.Var
 	visitInstrs(fn, nil, 0, map[*ssa.Function]bool{}, func(in ssa.Instruction, env *cfEnv) {
-		lk, ok := in.(*ssa.Lookup)
-		if !ok || found != nil {
+		if found != nil {
 			return
 		}
-		if _, isMap := lk.X.Type().Underlying().(*types.Map); !isMap {
-			return
-		}
-		if g := globalLoaded(lk.X, env, 0); g != nil {
+		switch x := in.(type) {
+		case *ssa.Lookup:
+			if _, isMap := x.X.Type().Underlying().(*types.Map); !isMap {
+				return
+			}
+			if g := globalLoaded(x.X, env, 0); g != nil {
+				if v, ok := g.Object().(*types.Var); ok {
+					found = v
+				}
+			}
+		case *ssa.IndexAddr:
+			// the array (or slice) form of the table: indexed directly by the function code
+			var g *ssa.Global
+			switch b := x.X.(type) {
+			case *ssa.Global:
+				g = b
+			default:
+				g = globalLoaded(x.X, env, 0)
+			}
+			if g == nil || g.Pkg == nil || !inModule(g.Pkg.Func("init")) {
+				return
+			}
+			et := elemType(g.Type().Underlying().(*types.Pointer).Elem())
+			if et == nil {
+				return
+			}
+			if _, isFn := et.Underlying().(*types.Signature); !isFn && typeName(et) != "reflect.Type" {
+				return
+			}
 			if v, ok := g.Object().(*types.Var); ok {
 				found = v
 			}
@@ -71,7 +95,7 @@ func extractRegistry(p *Program, v *types.Var) (*Registry, error) {
 	}
 	mm, ok := mk.(*ssa.MakeMap)
 	if !ok {
-		return nil, fmt.Errorf("registry %s is not initialised by a map literal", v.Name())
+		return registryFromInitState(p, v, g)
 	}
 	for _, b := range init.Blocks {
 		for _, in := range b.Instrs {
@@ -106,6 +130,71 @@ func extractRegistry(p *Program, v *types.Var) (*Registry, error) {
 			}
 			reg.Entries = append(reg.Entries, ent)
 		}
+	}
+	if len(reg.Entries) == 0 {
+		return registryFromInitState(p, v, g)
+	}
+	sort.Slice(reg.Entries, func(i, j int) bool { return reg.Entries[i].Key < reg.Entries[j].Key })
+	return reg, nil
+}
+
+// registryFromInitState: the table is built by running code during package initialisation (register calls,
+// a loop over prototypes): its entries are read off the evaluated state of the package after initialisation.
+func registryFromInitState(p *Program, v *types.Var, g *ssa.Global) (*Registry, error) {
+	reg := &Registry{Var: v, Pos: v.Pos()}
+	if !p.initFrozen(g) {
+		return nil, fmt.Errorf("registry %s is written after package initialisation", v.Name())
+	}
+	st := p.initStateOf(g.Pkg)
+	if !st.ok {
+		return nil, fmt.Errorf("registry %s: package initialisation could not be evaluated (%s)", v.Name(), st.why)
+	}
+	val := st.vals[g]
+	if val == nil {
+		return nil, fmt.Errorf("registry %s is not assigned during initialisation", v.Name())
+	}
+	add := func(k int64, e *Term) {
+		ent := RegEntry{Key: k, Pos: v.Pos()}
+		switch {
+		case e.Op == "closure" && e.Fn != nil:
+			ent.Pos = e.Fn.Pos()
+			ent.Type, ent.Detail = constructedType(e.Fn, 0)
+		case e.Op == "rtype" && e.Dyn != nil:
+			if nt, ok := types.Unalias(e.Dyn).(*types.Named); ok && nt.Obj().Pkg() != nil {
+				ent.Type = relPkg(nt.Obj().Pkg().Path()) + "." + nt.Obj().Name()
+			} else {
+				ent.Detail = "the table entry describes " + typeName(e.Dyn) + ", not a message struct"
+			}
+		default:
+			ent.Detail = "the table entry is not a function"
+		}
+		reg.Entries = append(reg.Entries, ent)
+	}
+	switch val.Op {
+	case "mapv":
+		for i := 0; i+1 < len(val.Args); i += 2 {
+			k, ok := val.Args[i].Int64()
+			if !ok {
+				return nil, fmt.Errorf("registry %s: non-constant key %s", v.Name(), val.Args[i].String())
+			}
+			add(k, val.Args[i+1])
+		}
+	case "slicev":
+		for k, e := range val.Args {
+			if e.IsNilConst() || e.Op == "zero" {
+				continue
+			}
+			add(int64(k), e)
+		}
+	case "sref":
+		for k, e := range srefElems(val) {
+			if e.IsNilConst() || e.Op == "zero" {
+				continue
+			}
+			add(int64(k), e)
+		}
+	default:
+		return nil, fmt.Errorf("registry %s: value after initialisation is not a table (%s)", v.Name(), cut(val.String(), 60))
 	}
 	if len(reg.Entries) == 0 {
 		return nil, fmt.Errorf("registry %s has no entries", v.Name())
